@@ -1,0 +1,71 @@
+// +build verif
+
+package account
+
+import (
+	"github.com/LemoFoundationLtd/lemochain-core/chain/types"
+	"github.com/LemoFoundationLtd/lemochain-core/common"
+)
+
+// VerifAccountDump is a raw view of one cached account for the verification harness.
+type VerifAccountDump struct {
+	Data       *types.AccountData
+	Code       types.Code
+	CodeDirty  bool
+	Suicided   bool
+	EventCount int
+	// keys present in the cached / dirty maps of the four storage caches
+	StorageKeys, AssetCodeKeys, AssetIdKeys, EquityKeys []common.Hash
+	DirtyStorage, DirtyAssetCode, DirtyAssetId, DirtyEquity int
+}
+
+func keysOf(c *StorageCache) []common.Hash {
+	seen := make(map[common.Hash]bool)
+	for k := range c.cached {
+		seen[k] = true
+	}
+	for k := range c.dirty {
+		seen[k] = true
+	}
+	out := make([]common.Hash, 0, len(seen))
+	for k := range seen {
+		out = append(out, k)
+	}
+	return out
+}
+
+// VerifCachedAddrs lists the accounts currently cached by the manager.
+func VerifCachedAddrs(am *Manager) []common.Address {
+	out := make([]common.Address, 0, len(am.accountCache))
+	for a := range am.accountCache {
+		out = append(out, a)
+	}
+	return out
+}
+
+// VerifDump returns the raw state of a cached account (nil if it is not cached).
+func VerifDump(am *Manager, addr common.Address) *VerifAccountDump {
+	sa := am.accountCache[addr]
+	if sa == nil {
+		return nil
+	}
+	a := sa.rawAccount
+	return &VerifAccountDump{
+		Data:           a.data.Copy(),
+		Code:           a.code,
+		CodeDirty:      a.codeIsDirty,
+		Suicided:       a.suicided,
+		EventCount:     len(a.events),
+		StorageKeys:    keysOf(a.storage),
+		AssetCodeKeys:  keysOf(a.assetCode),
+		AssetIdKeys:    keysOf(a.assetId),
+		EquityKeys:     keysOf(a.equity),
+		DirtyStorage:   len(a.storage.dirty),
+		DirtyAssetCode: len(a.assetCode.dirty),
+		DirtyAssetId:   len(a.assetId.dirty),
+		DirtyEquity:    len(a.equity.dirty),
+	}
+}
+
+// VerifJournalLen returns the number of change logs recorded so far.
+func VerifJournalLen(am *Manager) int { return len(am.processor.changeLogs) }
